@@ -1,5 +1,6 @@
 (* C04 — caches are transparent for every history of calls, failures and rebuilds. *)
 From Connectome Require Import Values Attrs VM Edges EdgesGen Store Evaluator L2 HashSound SpecEq EqFacts C01Inst C04Main Total RaiseDir C01Raise FailClean Examples.
+From Connectome Require ColStore ColumnsGen Columns ColumnsFacts.
 Local Open Scope list_scope.
 
 (* Every history of calls and clears, on any sequence of graphs sharing the caches (rebuilds, pipeline variants
@@ -104,3 +105,76 @@ Example C04_example_history :
   /\ csize σ4 0 = 1 /\ csize σ4 1 = 3.
 Proof. vm_compute. auto. Qed.
 Print Assumptions C04_example_history.
+
+(* ---------- column caches (CacheColumns) ----------
+   Every history of requests through the columns of a CacheColumns layer, new processes over the same folders and
+   entries written into the same folders by CacheToDisk layers: each request of a known key returns what the
+   pipeline without the layer returns, or the exception of a user function - and then the stores are left as they
+   were.  Over the REGENERATED body of CachedColumn.evaluate (Gen/ColumnsGen.v), with the equalities of the real
+   stores (== on hash values for the RAM table, digests on disk, == on keys).  Assumed: sorted() returns a
+   permutation; the graph of a column computes the hash and the value of the uncached field (C01/C05 for the
+   pipeline below the layer); entries with ==-equal hashes have equal values (C05; fails for keys 1 / True:
+   finding F3); the requested key is == to nothing but itself; and no entry of another layer has the node hash
+   ApplyHash(tuple, hashes of a shard) - without this last assumption the statement is false (C05.v: finding F11). *)
+Theorem C04_column_caches_are_transparent :
+  forall (sorted : list val -> list val) (get_hash : nat -> val -> option nhash) (get_value : nat -> val -> option val)
+         (h : nat -> val -> nhash) (v : nat -> val -> val),
+  (forall l, Permutation.Permutation (sorted l) l) ->
+  (forall c k x, get_hash c k = Some x -> x = h c k) ->
+  (forall c k x, get_value c k = Some x -> x = v c k) ->
+  (forall c k c' k', hpyeq (h c k) (h c' k') = true -> v c k = v c' k') ->
+  (forall c k c' ks, h c k <> ColumnsFacts.compound (map (h c') ks)) ->
+  forall size ops, size <> Some 0 -> Forall (ColumnsFacts.op_ok pyeq h v) ops ->
+  forall st, ColumnsFacts.Inv h v st ->
+  let (outs, st') := Columns.col_run hpyeq heqb pyeq sorted get_hash get_value size st ops in
+  Forall2 (ColumnsFacts.out_ok v) ops outs /\ ColumnsFacts.Inv h v st'.
+Proof.
+  intros sorted get_hash get_value h v H1 H2 H3 H4 H5.
+  exact (ColumnsFacts.column_history hpyeq heqb pyeq sorted get_hash get_value h v hpyeq_refl heqb_eq pyeq_refl H1 H2 H3 H4 H5).
+Qed.
+Print Assumptions C04_column_caches_are_transparent.
+
+(* one request: the right value and right stores, or a user exception and untouched stores *)
+Theorem C04_column_request_sound :
+  forall (sorted : list val -> list val) (get_hash : nat -> val -> option nhash) (get_value : nat -> val -> option val)
+         (h : nat -> val -> nhash) (v : nat -> val -> val),
+  (forall l, Permutation.Permutation (sorted l) l) ->
+  (forall c k x, get_hash c k = Some x -> x = h c k) ->
+  (forall c k x, get_value c k = Some x -> x = v c k) ->
+  (forall c k c' k', hpyeq (h c k) (h c' k') = true -> v c k = v c' k') ->
+  (forall c k c' ks, h c k <> ColumnsFacts.compound (map (h c') ks)) ->
+  forall col size key keys st r st' ev,
+  ColumnsFacts.Inv h v st -> ColumnsFacts.exact_key pyeq key -> In key keys -> size <> Some 0 ->
+  Columns.column_request hpyeq heqb pyeq sorted get_hash get_value col size key keys st = (r, st', ev) ->
+  (r = ColStore.COk (v col key) /\ ColumnsFacts.Inv h v st') \/ (exists f, r = ColStore.CErr (EUser f) /\ st' = st).
+Proof.
+  intros sorted get_hash get_value h v H1 H2 H3 H4 H5.
+  exact (ColumnsFacts.column_request_sound hpyeq heqb pyeq sorted get_hash get_value h v hpyeq_refl heqb_eq pyeq_refl H1 H2 H3 H4 H5).
+Qed.
+Print Assumptions C04_column_request_sound.
+
+(* a key that is not among the ids is refused by library code (ValueError) before anything is computed or stored *)
+Theorem C04_column_unknown_key :
+  forall (sorted : list val -> list val) (get_hash : nat -> val -> option nhash) (get_value : nat -> val -> option val),
+  (forall l, Permutation.Permutation (sorted l) l) ->
+  forall col size key keys st out,
+  get_hash col key = Some out -> ColStore.ram_get hpyeq st out = None -> ColumnsFacts.exact_key pyeq key -> ~ In key keys ->
+  exists e, Columns.column_request hpyeq heqb pyeq sorted get_hash get_value col size key keys st
+            = (ColStore.CErr (EValue e), st, [ColStore.CHash col key; ColStore.CKeyReq; ColStore.CKeysReq]).
+Proof. intros sorted get_hash get_value H1. exact (ColumnsFacts.column_unknown_key hpyeq heqb pyeq sorted get_hash get_value H1). Qed.
+Print Assumptions C04_column_unknown_key.
+
+(* the premises are satisfiable: two columns over string keys, a cold request, a hit, a new process reading the shard *)
+Example C04_example_columns :
+  let h := fun c k => HApply (if Nat.eqb c 0 then "a" else "b") [HLeaf k] [] in
+  let v := fun c k => VApp (if Nat.eqb c 0 then "a" else "b") [k] [] in
+  let keys := [VStr "p"; VStr "q"; VStr "r"] in
+  let ops := [Columns.QRequest 0 (VStr "q") keys; Columns.QRequest 0 (VStr "p") keys; Columns.QNewProcess;
+              Columns.QRequest 0 (VStr "p") keys; Columns.QRequest 1 (VStr "r") keys] in
+  let (outs, st) := Columns.col_run hpyeq heqb pyeq (fun l => l) (fun c k => Some (h c k)) (fun c k => Some (v c k)) (Some 2) ColStore.colstore0 ops in
+  map (option_map fst) outs = [Some (ColStore.COk (v 0 (VStr "q"))); Some (ColStore.COk (v 0 (VStr "p"))); None;
+                               Some (ColStore.COk (v 0 (VStr "p"))); Some (ColStore.COk (v 1 (VStr "r")))]
+  /\ map (option_map (fun x => List.length (snd x))) outs = [Some 7; Some 1; None; Some 5; Some 5]
+  /\ List.length (ColStore.disk st) = 2.
+Proof. vm_compute. auto. Qed.
+Print Assumptions C04_example_columns.
